@@ -12,6 +12,29 @@ PROP = "C10"
 
 def cases(rng, tier):
     cs = []
+    # user gates that shadow a built-in, called from inside other user gates (one and two levels down, with a parameter)
+    q0, q1 = ("q", "q", 0), ("q", "q", 1)
+    pre = [("qreg", "q", 2), ("creg", "c", 1), ("apply", "h", [("r", "q")], []), ("apply", "t", [q0], [])]
+    shadow = [
+        [("gate", "h", ["a"], [], [("apply", "x", [("r", "a")], [])]),
+         ("gate", "outer", ["a", "b"], [], [("apply", "h", [("r", "a")], []), ("apply", "cx", [("r", "a"), ("r", "b")], [])]),
+         ("apply", "outer", [q0, q1], [])],
+        [("gate", "rz", ["a"], ["t"], [("apply", "rx", [("r", "a")], [("var", "t")])]),
+         ("gate", "outer", ["a"], ["t"], [("apply", "rz", [("r", "a")], [("var", "t")])]),
+         ("apply", "outer", [q1], [("num", "1.25")])],
+        [("gate", "x", ["a"], [], [("apply", "h", [("r", "a")], [])]),
+         ("gate", "mid", ["a"], [], [("apply", "x", [("r", "a")], [])]),
+         ("gate", "outer", ["a"], [], [("apply", "mid", [("r", "a")], []), ("apply", "s", [("r", "a")], [])]),
+         ("apply", "outer", [q0], [])],
+        [("gate", "swap", ["a", "b"], [], [("apply", "cx", [("r", "a"), ("r", "b")], [])]),
+         ("gate", "outer", ["a", "b"], [], [("apply", "swap", [("r", "b"), ("r", "a")], [])]),
+         ("apply", "outer", [q0, q1], [])],
+    ]
+    for prog in shadow:
+        nodes = pre + prog
+        c = {"chunks": [nodes], "seed": 1, "lay": None}
+        c["texts"] = [qa.p_program(nodes, rng, header=False)]
+        cs.append(c)
     for _ in range(150 if tier == "quick" else 8000):
         nodes, lay = qa.gen_program(rng, nstmts=rng.randint(5, 40 if tier == "thorough" else 25), max_q=5,
                                     gate_defs=3, depth=rng.randint(1, 4))
